@@ -647,7 +647,7 @@ func propC17(p *Prog, r *Report) {
 	c17Provenance(p, r)
 	c17Guards(p, r)
 	// C17.d
-	if fi := p.Func(kCleanDeleteFile); fi != nil {
+	if fi := cleanerStepFunc(p); fi != nil {
 		info := fi.Pkg.TypesInfo
 		ok := false
 		ast.Inspect(fi.Decl.Body, func(x ast.Node) bool {
